@@ -320,8 +320,13 @@ PROPS["C10"]["claim"] += (" BYTE LEVEL (Lemmas/EvalSpec): read_eval returns exac
     "the escapes `$ ` `$$` `$:` and $-newline continuations with any indentation — and stops at the newline or path terminator "
     "(values_read_as_written); hence two texts that differ only in $var versus ${var} spelling are read as the same value "
     "(var_spelling_independent), and a continuation placed inside a literal does not change any expansion (continuation_placement). "
-    "Statement-level syntax (rule/build/default/pool/include lines as a whole) has no parse-of-rendering theorem; it is tied by the "
-    "correspondence run (two random spellings of every generated manifest).")
+    "STATEMENT LEVEL (Lemmas/StmtSpec): Parser::read on a `build` statement written as explicit outs [| implicit outs] : rule "
+    "explicit ins [| implicit] [|| order-only] [|@ validation] + indented bindings, with any spacing (spaces, $-newline) between "
+    "tokens, returns exactly those lists in that order with the section counts equal to the section lengths, the bindings in "
+    "written order, and leaves the scanner at the next statement (build_statement_read_as_written; BuildWF is met by a concrete "
+    "statement using every section kind); likewise top-level bindings, `rule` blocks, `default`, `include`/`subninja`, and the "
+    "skipping of blank and comment lines. `pool` blocks and the file-level loop over statements (Loader) have no such theorem; "
+    "they are tied by the correspondence run (two random spellings of every generated manifest).")
 PROPS["C15"]["claim"] += (" BYTE-LEVEL ROUND TRIP (parse_reads_what_was_written): for every depfile of `target: prerequisite ...` entries with any "
     "spaces before the colon, gaps of spaces and backslash-newline continuations, blank space anywhere and path bytes including "
     "colons, parse returns exactly the listed targets and prerequisites in order.")
